@@ -783,6 +783,8 @@ pub enum Layout {
   LineComments,
   /// every white space character of the FEEL grammar (rules 61, 62) in turn, also before the first and after the last token
   EveryWhiteSpace,
+  /// block comments of other shapes between all tokens: closed by `**/`, consisting of stars only, empty, with a star inside
+  CommentShapes,
   /// two comments in a row between all tokens (a block comment followed by a block or by a line comment)
   TwoComments,
   /// a run of 16 white space characters (blanks, a line break, a tab) between all tokens, before the first and after the last
@@ -856,6 +858,16 @@ pub fn join(toks: &[Tok], layout: Layout) -> String {
         Layout::NewlinesTabs => out.push_str(if i % 2 == 0 { "\n\t" } else { " \n" }),
         Layout::BlockComments => out.push_str(" /* c 1 + ( */ "),
         Layout::LineComments => out.push_str(" // c ) \"\n "),
+        Layout::CommentShapes => {
+          // `/` and `*` are name symbols too: directly after a name a comment made of name characters only continues the
+          // name (the grammar is ambiguous there), so those comments contain a `(`
+          let after_name = prev.text.chars().last().map(|c| c.is_alphanumeric() || c == '_' || c == '?').unwrap_or(false);
+          if after_name {
+            out.push_str([" /** ( doc **/ ", " /*(**/ ", " /* ( a*b */ "][i % 3])
+          } else {
+            out.push_str([" /** doc **/ ", " /***/ ", " /**/ ", " /* a*b */ ", " /****/ ", " /* / * */ "][i % 6])
+          }
+        }
         Layout::TwoComments => out.push_str(if i % 2 == 0 { " /* a */ /* b */ " } else { " /* a */ // b\n " }),
         Layout::LongRuns => out.push_str(if i % 2 == 0 { "             \n\t " } else { "\n               " }),
         Layout::EveryWhiteSpace => {
